@@ -10,6 +10,7 @@
    hop <idx> <addr> <flags|none>      Circuit.add_hop on the idx-th circuit (dict order)
    close <idx> | rm <idx>             Circuit.close / circuits.pop
    cancreate <0|1>
+   rmreq <cid> | rmdone <cid>         remove_circuit: close at once / pop after remove_tunnel_delay
    listener <lid> <0|1|none>          add_listener
    notify <0|1>                       notify_listeners(from_tunnel)
    dump                               canonical state
@@ -80,6 +81,8 @@ def parseOp (toks : List String) : Option Op :=
   | ["close", i] => do some (.close (← i.toNat?))
   | ["rm", i] => do some (.remove (← i.toNat?))
   | ["cancreate", b] => do some (.setCanCreate (← bool? b))
+  | ["rmreq", c] => do some (.removeRequest (← c.toNat?))
+  | ["rmdone", c] => do some (.removeDone (← c.toNat?))
   | ["listener", l, a] => do
       let an ← if a == "none" then some none else (bool? a).map some
       some (.addListener { lid := (← l.toNat?), anonymize := an })
